@@ -112,7 +112,7 @@ def run_c18(tier):
     rep = lib.Report('C18', tier)
     rep.cov['rule'] = ('cases = (code, device-dependent text) pushed on a fresh context and read back with SYST:ERR?; codes with and without description; text lengths '
                        '0..20 and around the 255 limit (quick) / 0..400 (thorough), 1..3 double quotes placed around the cut position and at random positions; '
-                       'non-trivial = the text contains a quote or the escaped content is within 3 bytes of the 255 limit; builds default (malloc) and heap')
+                       'non-trivial = the text contains a quote or the escaped content is within 3 bytes of the 255 limit; builds default (malloc) and heap; in the heap build also texts of 20..420 characters stored in two pieces around the heap end (an older entry alive in front), the cut before / at / behind the seam')
     rep.assumptions += ['the description table of the specification (ScpiErrTable.tla) is generated for every run from inc/scpi/error.h and the fallback text of error.c of the tree under test (full list): the texts are data of the library, their use is what is checked']
     w = lib.workdir('C18')
     r = lib.tlc('MCErrQueue', 'MCErrResp.cfg', timeout=600)
@@ -125,6 +125,8 @@ def run_c18(tier):
         if info is None:
             continue
         rep.cov['driver_runs'].append(dict(build=cfg, **info))
+        if cfg == 'heap' and info.get('stored_in_two_pieces', 0) < 100:
+            rep.broken.append('heap build: only %s responses were composed from a text stored in two pieces' % info.get('stored_in_two_pieces'))
         validate(rep, 'TVErrResp', w + '/r.ndjson', 'resp-' + cfg, nt_c18, chunk=3000)
     shutil.rmtree(w, ignore_errors=True)
     return rep.finish()
